@@ -574,8 +574,12 @@ class Context:
         :return: None.
         """
         # processes will be dealt in FAILED processing
-        status.state = SupvisorsInstanceStates.FAILED
-        self.export_status(status)
+        if status.has_active_state():
+            status.state = SupvisorsInstanceStates.FAILED
+            self.export_status(status)
+        else:
+            self.logger.debug('Context.on_instance_failure: late failure notification ignored for'
+                              f' Supvisors={status.usage_identifier} in state {status.state.name}')
 
     def on_process_removed_event(self, status: SupvisorsInstanceStatus, event: Payload) -> None:
         """ Method called upon reception of a process removed event from the remote Supvisors instance.
